@@ -63,6 +63,8 @@ func fmtName(f uint8) string {
 		return "YAML"
 	case dsd.GZIP:
 		return "GZIP"
+	case dsd.LIST:
+		return "LIST"
 	}
 	return fmt.Sprintf("id%d", f)
 }
@@ -809,7 +811,7 @@ func sampleSubject() *Subject {
 		I: -5, I8: -128, I16: 32767, I32: -2147483648, I64: lim53, U: 7, U8: 255, U16: 65535, U32: 4294967295, U64: uint64(lim53),
 		F64: -2.5e-300, F32: 16777217, B: true, S: "null", Sp: &sp, Ip: &ip, Bp: &bp, Ba: []byte("J{}"), Bap: &bap,
 		Sa: []string{"a: b", "日本", "\U0001f702"}, Sap: &sap, M: map[string]string{"true": "yes", "a\nb": "<>&"}, Mp: &mp,
-		Mi: map[string]int64{"1": 1, "-": -1},
+		Mi:   map[string]int64{"1": 1, "-": -1},
 		In:   Inner{Name: "in", N: 1, F: 0.1, Tags: []string{"t"}, Blob: []byte{1}, Attr: map[string]string{"a": "b"}, Next: &Inner{Name: "next"}},
 		Inp:  &Inner{Name: "inp", Next: &Inner{Next: &Inner{Name: "deep"}}},
 		Ins:  []Inner{{Name: "0"}, {Name: "1", Tags: []string{}}},
